@@ -195,6 +195,10 @@ def h20_status(S, junk=False):
         t_conn = [S.real("connect_at_s", 0, Fraction(8, 1000))]
         kinds = [len(JUNK)]
     d = Fraction(2, 1000)
+    # the healthy queue's consumer may need a while to start (a subscription round trip), possibly until after the other one failed
+    t_start = 0
+    if fails and not junk and not info_logging:
+        t_start = [0, t_fail / 2, t_fail + Fraction(1, 2000)][S.pick("healthy_consumer_is_up", 3)]      # at once / before / after the failure
     seen = []
     ran = []
     out = {}
@@ -205,6 +209,11 @@ def h20_status(S, junk=False):
         base = w.broker.CONSUMER_CLASS
 
         class Failing(base):
+            async def start(self):
+                if self.queue_name == "q_ok" and fails and not junk:
+                    await asyncio.sleep(t_start)
+                await super().start()
+
             async def consume(self):
                 if self.queue_name == "q_fail" and fails:
                     delay = t_fail - loop.time()
@@ -246,7 +255,7 @@ def h20_status(S, junk=False):
                 await asyncio.sleep(Fraction(4, 1000))
 
         await asyncio.gather(producer(), *[client(i) for i in range(n_conn)])
-        await asyncio.sleep(Fraction(15, 1000))
+        await asyncio.sleep(Fraction(25, 1000))
         out["still_running"] = not task.done()
         out["worker_error"] = repr(task.exception()) if task.done() and not task.cancelled() and task.exception() else None
         srv = loop.servers[0]
